@@ -109,7 +109,7 @@ N37(th) ==          \* self.name = name ; self.deadline = time.monotonic() + tim
 C94(th) == /\ pc[th] = "c94" /\ CanLock(th) /\ Acquire(th) /\ Goto(th, "c95")
            /\ UNCHANGED <<events, flag, actions, evName, evDl, now, ip, loc>> /\ ResKeep /\ GhostKeep
 C95(th) == /\ pc[th] = "c95" /\ events' = events \cup {loc[th].e} /\ Goto(th, "c96")
-           /\ gDl' = IF loc[th].isnew THEN [gDl EXCEPT ![loc[th].e] = Plus(now, OpOf(th).to)] ELSE gDl
+           /\ gDl' = IF loc[th].isnew THEN [gDl EXCEPT ![loc[th].e] = Plus(g[th].bvt, OpOf(th).to)] ELSE gDl   \* deadline >= begin of new() + timeout
            /\ UNCHANGED <<flag, lockOwner, lockDepth, actions, evName, evDl, now, ip, loc, ran, gdrop, queuedEver>> /\ ResKeep
 C96(th) == /\ pc[th] = "c96" /\ flag' = FALSE /\ Goto(th, "c97")
            /\ UNCHANGED <<events, lockOwner, lockDepth, actions, evName, evDl, now, ip, loc>> /\ ResKeep /\ GhostKeep
